@@ -49,6 +49,7 @@ type Obligation struct {
 	Solver  string
 	TimeS   float64
 	Model   map[string]string
+	modelExtra []string
 	Output  string
 	SMTSize int
 }
@@ -539,6 +540,37 @@ func (o *Obligation) SMT(withModel bool, forCVC5 bool) string {
 			sb.WriteString(w.T.String())
 			sb.WriteString(" ")
 		}
+		// for the replay of a counterexample: which string literal a string-valued input equals (if any), its length
+		// and whether it is a valid denomination, as far as the obligation speaks about those
+		o.modelExtra = nil
+		extra := func(name string, t *Term) {
+			sb.WriteString(t.String())
+			sb.WriteString(" ")
+			o.modelExtra = append(o.modelExtra, name)
+		}
+		var lits []string
+		for n, srt := range d.consts {
+			if srt == SStr && (strings.HasPrefix(n, "str:") || n == "bytes:nil") {
+				lits = append(lits, n)
+			}
+		}
+		sort.Strings(lits)
+		for _, n := range lits {
+			extra("lit#"+n, Const(n, SStr))
+		}
+		_, hasLen := d.funs["strlen"]
+		_, hasVD := d.funs["validDenom"]
+		for _, w := range o.Watch {
+			if w.T.Sort != SStr {
+				continue
+			}
+			if hasLen {
+				extra(w.Name+"#len", StrLen(w.T))
+			}
+			if hasVD {
+				extra(w.Name+"#validDenom", validDenom(w.T))
+			}
+		}
 		sb.WriteString("))\n")
 	}
 	return sb.String()
@@ -737,6 +769,25 @@ func (o *Obligation) fetchModel(base string) {
 	for i, w := range o.Watch {
 		if i < len(vals) {
 			o.Model[w.Name] = vals[i]
+		}
+	}
+	litOf := map[string]string{} // model element -> literal
+	for j, name := range o.modelExtra {
+		k := len(o.Watch) + j
+		if k >= len(vals) {
+			break
+		}
+		if strings.HasPrefix(name, "lit#") {
+			litOf[vals[k]] = strings.TrimPrefix(name, "lit#")
+		} else {
+			o.Model[name] = vals[k]
+		}
+	}
+	for _, w := range o.Watch {
+		if w.T.Sort == SStr {
+			if l, ok := litOf[o.Model[w.Name]]; ok {
+				o.Model[w.Name+"#lit"] = l
+			}
 		}
 	}
 }
